@@ -385,7 +385,16 @@ fn gen_varbyteint(t: &mut Tape) -> v5::VarByteInt {
 /// payload, UTF-8 when required by the payload-format indicator
 fn gen_payload(t: &mut Tape, cfg: &GenCfg, utf8: bool) -> Bytes {
     if utf8 {
-        Bytes::from(gen_string(t, cfg).into_bytes())
+        // a payload that is flagged as UTF-8 is any well-formed UTF-8: one time in three it leads with a character that
+        // text-handling code likes to treat specially (NUL, BOM, a noncharacter, controls, the last code point)
+        let mut s = gen_string(t, cfg);
+        if t.chance(1, 3) {
+            let c = ['\0', '\u{FEFF}', '\u{FFFF}', '\u{FDD0}', '\u{1}', '\u{7f}', '\u{85}', '\u{10FFFF}', '\u{2028}'][t.pick(9)];
+            if s.len() + c.len_utf8() <= 65_535 {
+                s.insert(0, c);
+            }
+        }
+        Bytes::from(s.into_bytes())
     } else {
         gen_bytes(t, cfg)
     }
